@@ -337,8 +337,8 @@ fn judge_static(kind: &str, idx: u64, t: &CE, v: i64, sig: Option<String>) -> Ca
 fn judge_folded(kind: &str, idx: u64, t: &CE, v: i64, sig: Option<String>) -> CaseResult {
     let e = t.print(0);
     let src = format!(
-        "unsigned char r, c;\nshort s;\nvoid main() {{\n  r = {};\n  s = {};\n  c = 2;\n  if ({}) c = 1;\n}}\n",
-        e, e, e
+        "unsigned char r, c, li;\nshort s, ls;\nvoid main() {{\n  unsigned char l0 = {};\n  short l1 = {};\n  r = {};\n  s = {};\n  c = 2;\n  if ({}) c = 1;\n  li = l0;\n  ls = l1;\n}}\n",
+        e, e, e, e, e
     );
     let mut res = CaseResult::new("", hash_str(&src));
     let mut ops = Vec::new();
@@ -346,7 +346,7 @@ fn judge_folded(kind: &str, idx: u64, t: &CE, v: i64, sig: Option<String>) -> Ca
     for o in ops {
         res.set("operators / literal forms / operator pairs", &o);
     }
-    res.set("positions", "folded in statements: char store; short store; condition");
+    res.set("positions", "folded in statements: char store; short store; condition; local initialisers");
     let pr = run_source(&src, &Opts::o(1), &[], 0, 0);
     if pr.outcome != "Ok" {
         // statement-level folding may refuse shapes ("partially implemented"): counted, not judged
@@ -354,7 +354,7 @@ fn judge_folded(kind: &str, idx: u64, t: &CE, v: i64, sig: Option<String>) -> Ca
         return res;
     }
     res.nontrivial = true;
-    res.count("comparisons", 3);
+    res.count("comparisons", 5);
     if pr.stop != Some(Stop::Halt) {
         viol(&mut res, kind, idx, &sig, format!("folded program did not run: {:?}", pr.stop), &src);
         return res;
@@ -363,6 +363,18 @@ fn judge_folded(kind: &str, idx: u64, t: &CE, v: i64, sig: Option<String>) -> Ca
     let exp_r = v & 0xff;
     let exp_s = v & 0xffff;
     let exp_c = if v != 0 { 1 } else { 2 };
+    if get("li") != Some(exp_r) || get("ls") != Some(exp_s) {
+        // (initialisers of locals are parsed by an operator table of their own)
+        viol(
+            &mut res,
+            kind,
+            idx,
+            &sig,
+            format!("{} = {} in C: as initialiser of a local char it gives {:?} (want {}), of a local short {:?} (want {})", e, v, get("li"), exp_r, get("ls"), exp_s),
+            &src,
+        );
+        return res;
+    }
     if get("r") != Some(exp_r) || get("s") != Some(exp_s) || get("c") != Some(exp_c) {
         viol(
             &mut res,
